@@ -309,11 +309,10 @@ func (p *printer) node(n *Node, indent, prefix, comma string, out *[]line) {
 			open, end = "[", "]"
 		}
 		if p.lay.Compact && compactable(n) && p.next(2) == 0 {
-			// one-line container: a rule annotation of the container itself is only legal when the
-			// line holds exactly one example element, so only a note-less, rule-less container (or an
-			// object with a note only) is printed this way
-			if !p.hasAnnot(n) || (n.Kind == "object" && len(n.Rules) == 0) {
-				emit(indent + prefix + p.compact(n) + comma + p.annotation(n))
+			// one-line container: an annotation on such a line attaches to the last element on it, not
+			// to the container, so only a container without any annotation is printed this way
+			if !p.hasAnnot(n) {
+				emit(indent + prefix + p.compact(n) + comma)
 				return
 			}
 		}
